@@ -47,10 +47,12 @@ def _spec(draw, tier):
 
 
 def strategy(tier):
-    return _spec(tier)
+    return gens.with_pre(_spec(tier))
 
 
 def check(spec, stats):
+    if sim.set_pre(spec):
+        stats.label("pre_elaborated")
     n, dw, al = spec["n"], spec["dw"], spec["al"]
     modes = spec["modes"]
     srcs = [event.Source(trigger=m, path=(f"s{k}",)) for k, m in enumerate(modes)]
